@@ -469,3 +469,70 @@ Example straddling_start_code :
                              (concat (parse_nalus cs (read_file cs file))) (split_whole file)
                         then true else false) (seq 1 30) = true.
 Proof. split; vm_compute; reflexivity. Qed.
+
+(* ---------------- piped stdin: any fragmentation of the input gives an admissible read schedule ---------------- *)
+Lemma eof_sticky_concat_nil frags : eof_sticky frags -> forall f t, frags = f :: t -> f = [] -> concat t = [].
+Proof. intros H f t -> Hf. destruct H as [H _]. exact (H Hf). Qed.
+
+Lemma stdin_inner_spec cs : forall frags acc piece rest,
+  eof_sticky frags -> stdin_inner cs acc frags = (piece, rest) ->
+  acc ++ concat frags = piece ++ concat rest /\ eof_sticky rest /\
+  (List.length rest <= List.length frags) /\
+  (List.length piece < cs -> concat rest = []) /\ (acc <> [] -> piece <> []).
+Proof.
+  induction frags as [|f t IH]; intros acc piece rest Hs H; cbn [stdin_inner] in H.
+  - inversion H; subst. cbn. rewrite app_nil_r. repeat split; auto.
+  - destruct Hs as [Hf Ht].
+    destruct (Nat.eqb (List.length f) 0) eqn:E0.
+    + apply Nat.eqb_eq in E0. apply length_zero_iff_nil in E0. subst f. inversion H; subst.
+      cbn [concat app]. repeat split; auto. cbn. lia.
+    + destruct (Nat.leb cs (List.length (acc ++ f))) eqn:El.
+      * inversion H; subst. cbn [concat]. rewrite app_assoc. repeat split; auto; [cbn; lia| |].
+        -- apply Nat.leb_le in El. intros Hlt. lia.
+        -- intros _ Hnil. apply app_eq_nil in Hnil as [_ Hn]. subst f. discriminate.
+      * destruct (IH (acc ++ f) piece rest Ht H) as (H1 & H2 & H3 & H4 & H5).
+        cbn [concat]. rewrite app_assoc. repeat split; auto; [cbn; lia|].
+        intros _. apply H5. intros Hnil. apply app_eq_nil in Hnil as [_ Hn]. subst f. discriminate.
+Qed.
+
+Lemma stdin_pieces_spec cs : forall fuel frags,
+  eof_sticky frags -> List.length frags <= fuel ->
+  concat (stdin_pieces fuel cs frags) = concat frags /\ schedule_ok cs (stdin_pieces fuel cs frags).
+Proof.
+  induction fuel as [|fu IH]; intros frags Hs Hl.
+  - destruct frags; [split; [reflexivity|exact I]|cbn in Hl; lia].
+  - destruct frags as [|f t]; [split; [reflexivity|exact I]|].
+    cbn [stdin_pieces]. destruct (stdin_inner cs f t) as [piece rest] eqn:E.
+    destruct Hs as [Hf Ht].
+    destruct (stdin_inner_spec cs t f piece rest Ht E) as (H1 & H2 & H3 & H4 & _).
+    destruct (IH rest H2) as [Hc Hok]; [cbn in Hl; lia|].
+    split.
+    + change (concat (piece :: stdin_pieces fu cs rest)) with (piece ++ concat (stdin_pieces fu cs rest)).
+      rewrite Hc. change (concat (f :: t)) with (f ++ concat t). symmetry. exact H1.
+    + split; [|exact Hok]. intros Hlt. rewrite Hc. apply H4. exact Hlt.
+Qed.
+
+(* PIPED INPUT: however the pipe fragments the stream, the reader hands over the NALs of the whole stream *)
+Theorem read_stdin_chunk_invariant cs frags :
+  1 <= cs -> eof_sticky frags ->
+  concat (parse_nalus cs (read_stdin cs frags)) = split_whole (concat frags).
+Proof.
+  intros Hcs Hs. unfold read_stdin.
+  destruct (stdin_pieces_spec cs (List.length frags) frags Hs (le_n _)) as [Hc Hok].
+  rewrite parse_nalus_chunk_invariant by assumption. now rewrite Hc.
+Qed.
+
+(* file and pipe agree, whatever the fragmentation *)
+Corollary file_and_pipe_agree cs1 cs2 frags : 1 <= cs1 -> 1 <= cs2 -> eof_sticky frags ->
+  concat (parse_nalus cs1 (read_stdin cs1 frags)) = concat (parse_nalus cs2 (read_file cs2 (concat frags))).
+Proof. intros H1 H2 Hs. now rewrite read_stdin_chunk_invariant, read_file_chunk_invariant. Qed.
+
+(* the pipe treated as a file (no accumulation: one fragment per iteration) loses data as soon as a fragment is
+   shorter than the chunk size *)
+Example pipe_read_as_file_breaks :
+  let file := [0;0;1;64;1;7;7;7;7; 0;0;1;66;1;9]%N in
+  let frags := [firstn 6 file; skipn 6 file; []] in
+  eof_sticky frags /\
+  concat (parse_nalus 8 frags) <> split_whole file /\
+  concat (parse_nalus 8 (read_stdin 8 frags)) = split_whole file.
+Proof. cbv. repeat split; try discriminate; intros; discriminate. Qed.
